@@ -385,6 +385,8 @@ func ruleStateReset(c *Ctx) []Obligation {
 			obs = append(obs, ok(R, con, c.Pos(proc.Pos()), c.inProgressBalanced(k)))
 		case c.rebuiltInWriter(k) != "":
 			obs = append(obs, ok(R, con, c.Pos(proc.Pos()), c.rebuiltInWriter(k)))
+		case c.invalidatedOnLoad(k) != "":
+			obs = append(obs, ok(R, con, c.Pos(proc.Pos()), c.invalidatedOnLoad(k)))
 		case jstr("stateMonotone", stateMonotone, k) != "":
 			obs = append(obs, just(R, con, c.Pos(proc.Pos()), jstr("stateMonotone", stateMonotone, k)))
 		default:
@@ -1455,6 +1457,11 @@ func ruleReadPure(c *Ctx) []Obligation {
 				if c.closureLocal(fn, addr) {
 					return
 				}
+				// a field of a type that only ever lives in locals (an accumulator handed to a walk): no shared
+				// object can be reached through it
+				if owner, _, _ := fieldOf(rootFieldAddr(addr)); owner != nil && c.localOnlyType(owner) {
+					return
+				}
 				fld := addrField(addr)
 				if _, isMU := in.(*ssa.MapUpdate); isMU {
 					owner, f, _ := loadedField(addr)
@@ -1830,6 +1837,45 @@ func ruleRoOrder(c *Ctx) []Obligation {
 			}
 		}
 	}
+	// … or climbs in a loop: a cursor that starts at the receiver and is advanced to its own Parent, the advance
+	// being reached only with the cursor's config unset
+	var cursor *ssa.Phi
+	eachInstr(ro, func(in ssa.Instruction) {
+		phi, isPhi := in.(*ssa.Phi)
+		if !isPhi || cursor != nil {
+			return
+		}
+		fromRecv, fromParent := false, false
+		var adv ssa.Value
+		for _, e := range phi.Edges {
+			if isParamN(ro, e, 0) {
+				fromRecv = true
+			}
+			if _, f, base := loadedField(e); f == m.fParent && base == ssa.Value(phi) {
+				fromParent, adv = true, e
+			}
+		}
+		if !fromRecv || !fromParent {
+			return
+		}
+		cursor = phi
+		if advIn, isI := adv.(ssa.Instruction); isI && !inherit {
+			for _, g := range guardsAt(advIn.Block()) {
+				bo, isB := g.Cond.(*ssa.BinOp)
+				if !isB {
+					continue
+				}
+				if _, f2, b2 := loadedField(bo.X); f2 == fConfig && b2 == ssa.Value(phi) && isZero(bo.Y) {
+					if bo.Op == token.EQL && g.Branch || bo.Op == token.NEQ && !g.Branch {
+						inherit = true
+					}
+				}
+			}
+		}
+	})
+	isSelf := func(base ssa.Value) bool {
+		return isParamN(ro, base, 0) || isParamN(ro, resolveArg(rootOf(base)), 0) || cursor != nil && base == ssa.Value(cursor)
+	}
 	if inherit {
 		obs = append(obs, ok(R, con, c.Pos(ro.Pos()), "Config == TSUnset → e.Parent.ReadOnly()"))
 	} else {
@@ -1845,7 +1891,7 @@ func ruleRoOrder(c *Ctx) []Obligation {
 		if u, oku := r.Results[0].(*ssa.UnOp); oku && u.Op == token.NOT {
 			if call, okcall := u.X.(*ssa.Call); okcall && call.Call.StaticCallee() != nil && call.Call.StaticCallee().Name() == "Value" && len(call.Call.Args) > 0 {
 				// it is the entry's own config that decides, not a sibling tristate (mandatory)
-				if _, f, base := loadedField(call.Call.Args[0]); f == fConfig && (isParamN(ro, base, 0) || isParamN(ro, resolveArg(rootOf(base)), 0)) {
+				if _, f, base := loadedField(call.Call.Args[0]); f == fConfig && isSelf(base) {
 					explicit = true
 				}
 			}
@@ -2097,5 +2143,193 @@ func (c *Ctx) onlyCalledBySort(fn *ssa.Function) bool {
 			return false
 		}
 	}
+	return true
+}
+
+// invalidatedOnLoad: the field is stored afresh, unconditionally, in a function that Modules.Parse calls for every
+// module it files (after the filing succeeded, before the next statement or the return): what was computed from the
+// modules loaded so far is dropped whenever that set changes, which is all a memo over the loaded set needs — also
+// when the load happens in the middle of a Process run (FindModule → Read → Parse).
+func (c *Ctx) invalidatedOnLoad(key string) string {
+	parts := strings.SplitN(key, ".", 2)
+	owner := c.Named("yang", parts[0])
+	if owner == nil || len(parts) != 2 {
+		return ""
+	}
+	f := FieldVar(owner, parts[1])
+	parse := c.Fn("yang.(*Modules).Parse")
+	add := c.Fn("yang.(*Modules).add")
+	if f == nil || parse == nil || add == nil {
+		return ""
+	}
+	switch f.Type().Underlying().(type) {
+	case *types.Map, *types.Slice:
+	default:
+		return ""
+	}
+	adds := c.callsToDeep(parse, add)
+	if len(adds) != 1 {
+		return ""
+	}
+	addSite := liftTo(adds[0].(ssa.Instruction), parse)
+	if addSite == nil {
+		return ""
+	}
+	// the hooks: calls in Parse that every path from the filing to the next statement or to an accepting return
+	// passes — minus the paths that leave through an error return
+	found := ""
+	eachInstr(parse, func(in ssa.Instruction) {
+		ci, isC := in.(ssa.CallInstruction)
+		if !isC || found != "" || in == addSite || !dominates(addSite, in) {
+			return
+		}
+		hook := ci.Common().StaticCallee()
+		if hook == nil || !c.isRepoFn(hook) {
+			return
+		}
+		// the hook stores the field afresh on every path through it
+		fresh := false
+		for _, st := range storesToField(hook, f) {
+			switch v := st.Val.(type) {
+			case *ssa.MakeMap, *ssa.MakeSlice:
+				fresh = onEveryPath(st)
+			case *ssa.Const:
+				fresh = v.Value == nil && onEveryPath(st)
+			}
+		}
+		if !fresh {
+			return
+		}
+		// every accepting way on from the filing passes the call
+		avoid := map[*ssa.BasicBlock]bool{in.Block(): true}
+		okAll := true
+		hdr := loopHeaderOf(addSite.Block())
+		for _, b := range parse.Blocks {
+			target := b == hdr && hdr != nil
+			if r, isR := b.Instrs[len(b.Instrs)-1].(*ssa.Return); isR && b != parse.Recover && !blockReturnsError(b) {
+				_ = r
+				target = true
+			}
+			if !target || !blockReaches(addSite.Block(), b, nil) {
+				continue
+			}
+			// reachable without the hook only through an error exit?
+			if in.Block() != addSite.Block() && reachWithoutErrorExit(addSite.Block(), b, avoid) {
+				okAll = false
+			}
+		}
+		if okAll {
+			found = fmt.Sprintf("dropped whenever a module is filed: %s stores it afresh and Modules.Parse calls it after every successful filing", c.FnName(hook))
+		}
+	})
+	return found
+}
+
+// reachWithoutErrorExit: b is reachable from a without entering a block of avoid; error-returning blocks end a path.
+func reachWithoutErrorExit(a, b *ssa.BasicBlock, avoid map[*ssa.BasicBlock]bool) bool {
+	seen := map[*ssa.BasicBlock]bool{}
+	stack := append([]*ssa.BasicBlock{}, a.Succs...)
+	for len(stack) > 0 {
+		x := stack[len(stack)-1]
+		stack = stack[:len(stack)-1]
+		if seen[x] || avoid[x] {
+			continue
+		}
+		seen[x] = true
+		if x == b {
+			return true
+		}
+		stack = append(stack, x.Succs...)
+	}
+	return false
+}
+
+// rootFieldAddr: the field address a store or map update goes through (the map's own field for an update).
+func rootFieldAddr(addr ssa.Value) ssa.Value {
+	if u, isU := addr.(*ssa.UnOp); isU {
+		return u.X
+	}
+	return addr
+}
+
+var localOnlyMemo = map[*types.Named]bool{}
+
+// localOnlyType: an unexported struct type of the repository that no struct field, package-level variable, map,
+// slice, array or channel element, and no interface-typed position the repo stores into, can hold: its values live
+// in locals and parameters only (they may be captured by closures and method values).
+func (c *Ctx) localOnlyType(t *types.Named) bool {
+	if v, done := localOnlyMemo[t]; done {
+		return v
+	}
+	localOnlyMemo[t] = false
+	if t.Obj().Exported() || t.Obj().Pkg() == nil || c.Types[t.Obj().Pkg().Path()] == nil {
+		return false
+	}
+	if _, isS := t.Underlying().(*types.Struct); !isS {
+		return false
+	}
+	holds := func(x types.Type) bool {
+		seen := map[types.Type]bool{}
+		var in func(y types.Type) bool
+		in = func(y types.Type) bool {
+			if y == nil || seen[y] {
+				return false
+			}
+			seen[y] = true
+			if namedOf(y) == t {
+				return true
+			}
+			switch u := y.Underlying().(type) {
+			case *types.Pointer:
+				return in(u.Elem())
+			case *types.Slice:
+				return in(u.Elem())
+			case *types.Array:
+				return in(u.Elem())
+			case *types.Map:
+				return in(u.Key()) || in(u.Elem())
+			case *types.Chan:
+				return in(u.Elem())
+			}
+			return false
+		}
+		return in(x)
+	}
+	for _, pkg := range c.Types {
+		sc := pkg.Scope()
+		for _, n := range sc.Names() {
+			switch o := sc.Lookup(n).(type) {
+			case *types.Var:
+				if holds(o.Type()) {
+					return false
+				}
+			case *types.TypeName:
+				if nt, isN := o.Type().(*types.Named); isN && nt != t {
+					if st, isS := nt.Underlying().(*types.Struct); isS {
+						for i := 0; i < st.NumFields(); i++ {
+							if holds(st.Field(i).Type()) {
+								return false
+							}
+						}
+					} else if holds(nt.Underlying()) {
+						return false
+					}
+				}
+			}
+		}
+	}
+	// never boxed into an interface (it could then sit anywhere)
+	for _, fn := range c.Funcs {
+		boxed := false
+		eachInstr(fn, func(in ssa.Instruction) {
+			if mi, isMI := in.(*ssa.MakeInterface); isMI && holds(mi.X.Type()) {
+				boxed = true
+			}
+		})
+		if boxed {
+			return false
+		}
+	}
+	localOnlyMemo[t] = true
 	return true
 }
